@@ -41,6 +41,9 @@ pub enum St {
     Cancel { k: usize, via: usize, order: u8 },
     /// pair sum c_i + c_j
     Pair { k: usize, i: usize, j: usize },
+    /// the SAME ciphertext object on both sides of the operator, `doublings` times in a row (a double-and-add ladder),
+    /// through impl #`via`
+    SelfAdd { k: usize, m: usize, via: usize, doublings: usize },
     /// decryption key recombined from shares (split #i, subset mask)
     Shares { k: usize, m: usize, split: usize, mask: u32, fault: Option<u8> },
     /// large splittings (t, n) = BIG[tn] with a named subset: 0 first t, 1 last t, 2 all, 3 first t - 1, 4 all + a duplicate
@@ -136,6 +139,11 @@ impl<C: Suite> Model for M14<C> {
             for i in 0..NSUM {
                 for j in i + 1..NSUM {
                     v.push(St::Pair { k, i, j });
+                    if i == 0 && j < 3 {
+                        for via in 0..6 {
+                            v.push(St::SelfAdd { k, m: 5 + j, via, doublings: j + 1 });
+                        }
+                    }
                 }
             }
             for subset in 0..EQ_SUBSETS.len() {
@@ -335,6 +343,30 @@ impl<C: Suite> Model for M14<C> {
                 let ok = pt(&sum.decrypt(&self.sks[*k])) == self.ref_point(&ms);
                 o.outcome(if ok { "sum:homomorphic" } else { "sum:wrong" });
                 o.expect(&format!("C14:sum-with-cancelling-blinders:{}:impl{}:order{}", g, via, order), ok, "sum of plaintexts times the generator", "differs");
+            }
+            St::SelfAdd { k, m, via, doublings } => {
+                let mut acc = self.enc(*k, *m);
+                for _ in 0..*doublings {
+                    match via {
+                        0 => acc = acc + acc,
+                        1 => acc = &acc + &acc,
+                        2 => acc = acc + &acc,
+                        3 => acc = &acc + acc,
+                        4 => {
+                            let y = acc;
+                            acc += y;
+                        }
+                        _ => {
+                            let y = acc;
+                            acc += &y;
+                        }
+                    }
+                }
+                o.calls(*doublings as u64);
+                let ms: Vec<usize> = vec![*m; 1 << *doublings];
+                let ok = pt(&acc.decrypt(&self.sks[*k])) == self.ref_point(&ms);
+                o.outcome(if ok { "sum:homomorphic" } else { "sum:wrong" });
+                o.expect(&format!("C14:ciphertext-added-to-itself:{}:impl{}", g, via), ok, "2^d times the plaintext times the generator", "differs");
             }
             St::Pair { k, i, j } => {
                 let a = self.enc(*k, 5 + i);
@@ -548,6 +580,7 @@ fn depth_of<C: Suite>(_m: &M14<C>, s: &St) -> usize {
         St::Sum { n, via, .. } => n - 1 + (*via != 0) as usize,
         St::Cancel { .. } => 0,
         St::Pair { .. } => 0,
+        St::SelfAdd { .. } => 0,
         St::Shares { mask, fault, .. } => mask.count_ones() as usize + fault.is_some() as usize,
         St::SharesBig { .. } | St::SharesEqual { .. } => 0,
         St::Proof { dev, .. } => dev.is_some() as usize,
